@@ -29,7 +29,8 @@ ASSUMPTIONS = [
 T.ALPHABETS['c11amr'] = {'concepts': ['x'], 'roles': [':mod', ':mod-of', ':polarity~e.1', ':ARG0', ':poss-of'], 'atoms': ['-', 'k~e.1'], 'refs': 'all+aligned0'}
 T.ALPHABETS['c11mini'] = {'concepts': ['x'], 'roles': [':mod', ':accompanier-of~1', ':ARG0'], 'atoms': ['-'], 'refs': 'all'}
 T.ALPHABETS['c11t'] = {'concepts': ['x', 'ra'], 'roles': [':a', ':a-of~1', ':b'], 'atoms': ['k'], 'refs': 'all'}
-T.ALPHABETS['c11deep'] = {'concepts': ['x'], 'roles': [':mod', ':ARG0', ':polarity-of'], 'atoms': ['-'], 'refs': 'all'}
+T.ALPHABETS['c11deep'] = {'concepts': ['x', 'have-mod-91'], 'roles': [':mod', ':ARG0'], 'atoms': ['-'], 'refs': 'all'}
+T.ALPHABETS['c11nc2'] = {'concepts': ['x', 'have-mod-91'], 'roles': [':ARG1-of', ':ARG2', ':ARG1'], 'atoms': ['-', '7'], 'refs': 'all'}
 T.ALPHABETS['c11nc'] = {'concepts': ['x', 'have-mod-91'], 'roles': [':ARG1', ':ARG2', ':ARG1-of', ':ARG2-of', ':ARG0'], 'atoms': ['-'], 'refs': 'all'}
 
 VARIANTS = [None, {'b': '_', 'c': '_2'}, {'a': '_2', 'b': '_'}]
@@ -46,6 +47,8 @@ def shards(tier, seed):
     if q:
         blk = T.shard_list(3, 4, 3, 'c11amr', pin=3, extra={'sub': 'inverse', 'model': 'AMR', 'bounds': ''})
         out += blk[seed % 8::8]     # rotating eighth of the next bound (each shard exhaustive)
+    out += T.shard_list(2, 3, 2, 'c11nc', extra={'sub': 'nocollapse', 'model': 'AMR', 'bounds': ''})
+    out += T.shard_list(2, 4, 2, 'c11nc2', extra={'sub': 'nocollapse', 'model': 'AMR', 'bounds': ''})
     out += T.shard_list(3, 3 if q else 4, 3, 'c11nc', pin=3, extra={'sub': 'nocollapse', 'model': 'AMR', 'bounds': f'TREE(3,{3 if q else 4},3) with have-mod-91 nodes: protected nodes are never collapsed'})
     return out
 
